@@ -30,6 +30,7 @@ ClearsF    == [v \in Views |-> ToSet(K.clears[v])]
 ReadDepsF  == [v \in Views |-> ToSet(K.readDeps[v])]
 WriteDepsF == [v \in Views |-> ToSet(K.writeDeps[v])]
 WriteSetsF == [v \in Views |-> ToSet(K.writeSets[v])]
+EmptyLumps   == ToSet(K.emptyLumps)    \* lumps that hold nothing in the measured file: nothing to lose
 ExcusedLumps == ToSet(K.excusedLumps)
 ExcusedViews == ToSet(K.excusedViews)
 
@@ -102,10 +103,12 @@ SaveAll(st) == SaveFrom(st, 1)
 
 (* A new BSP object reading the file that was written: what was intact is the     *)
 (* new original; lost content stays lost.                                         *)
-Rebase(disk) == [l \in Lumps |-> IF disk[l] \in Intact THEN "orig" ELSE disk[l]]
+\* (a lump whose loss is already reported and excused is taken as restored, so that the one defect does not
+\* show up again as stale views and lost lumps of the next cycle)
+Rebase(disk) == [l \in Lumps |-> IF disk[l] \in Intact \/ l \in ExcusedLumps THEN "orig" ELSE disk[l]]
 
 (* ---- the property, on a state after save() ---------------------------------- *)
-LostLumps(raw) == {l \in Lumps : raw[l] \in Bad}
+LostLumps(raw) == {l \in Lumps \ EmptyLumps : raw[l] \in Bad}
 Lossless(raw)  == LostLumps(raw) \subseteq ExcusedLumps
 CacheEmpty(st) == Cached(st) \subseteq ExcusedViews
 
